@@ -20,7 +20,7 @@ def run(tier, seed, replay=None):
             raise vlib.Infra("model variant '%s' is no longer refuted (got %s)" % (name, p.violated))
         shutil.rmtree(p.workdir, ignore_errors=True)
     rep = vlib.run_harness(binary, ["c11", "-cases", os.path.join(r.workdir, "c11_cases.ndjson")], timeout=7000)
-    if rep.get("extra", {}).get("read_error") or rep["inconclusive"]:
+    if rep.get("extra", {}).get("read_error") or (rep["inconclusive"] and not rep["divergences"]):
         raise vlib.Infra("c11 harness: %s" % rep.get("extra"))
     ck.add_report(rep)
     ck.cov["rule"] = ("one case per TLC state, concretised with real Bitswap / IpfsGatewayHttp / GraphsyncFilecoinV1 (varying piece CID and flags) / Unknown "
